@@ -68,7 +68,9 @@ def meaningful(cls, fault, world, phase, target):
     if fault == "X3":
         return "quant" in kinds
     if fault == "X4":
-        return "ord" in kinds
+        # numeric-valued ordinal columns go through the string conversion step, which appends any
+        # unranked value to the ranking by design: only string-valued ordinal features qualify
+        return any(f["kind"] == "ord" and f.get("sub") != "num" for f in world["features"])
     if fault in TARGET_FAULTS and cls in UNSUPERVISED:
         return False
     return True
@@ -199,7 +201,7 @@ def mutate(sess, fault, variant, op, X, y, kwargs):
         X[col] = X[col].astype("object")
         X.iat[pos, X.columns.get_loc(col)] = "abc"
     elif fault == "X4":
-        ords = sorted(f["name"] for f in feats if f["kind"] == "ord")
+        ords = sorted(f["name"] for f in feats if f["kind"] == "ord" and f.get("sub") != "num")
         col = ords[op["f"] % len(ords)]
         desc["column"], desc["row"] = col, pos
         X[col] = X[col].astype("object")
